@@ -313,7 +313,7 @@ def run_asgi(path, mapping, ep, wrapped):
     return _classify(eng.hits, hits['wrapped'], sent[0]['status'], hdrs.get('content-type'), sent[1].get('body', b''))
 
 
-def run_asgi_ws(path, mapping, ep):
+def run_asgi_ws(path, mapping, ep, wrapped=True):
     """A WebSocket scope with a wrapped application present: under the endpoint it is the engine's, anywhere else the wrapped
     application's - static files are an HTTP matter."""
     import engineio
@@ -323,7 +323,7 @@ def run_asgi_ws(path, mapping, ep):
     async def other(scope, receive, send):
         hits['wrapped'] += 1
         await send({'type': 'websocket.close'})
-    app = engineio.ASGIApp(eng, other, static_files=mapping, engineio_path=ep)
+    app = engineio.ASGIApp(eng, other if wrapped else None, static_files=mapping, engineio_path=ep)
     sent = []
     state = {'n': 0}
 
@@ -348,6 +348,8 @@ def run_asgi_ws(path, mapping, ep):
         return {'who': 'engine'}
     if hits['wrapped'] and not eng.hits:
         return {'who': 'wrapped'}
+    if not eng.hits and not hits['wrapped'] and [e.get('type') for e in sent] == ['websocket.close']:
+        return {'who': 'refused'}        # the handshake is refused: what "not found" is on a WebSocket scope
     return {'who': 'nobody', 'events': [e.get('type') for e in sent]}
 
 
@@ -470,6 +472,16 @@ def _work(chunk):
                     got_ws = run_asgi_ws(path, mapping, ep)
                     stats['runs'] += 2
                     want_ws = 'engine' if ref['who'] == 'engine' else 'wrapped'
+                    got_nw = run_asgi_ws(path, mapping, ep, wrapped=False)
+                    stats['runs'] += 1
+                    want_nw = 'engine' if ref['who'] == 'engine' else 'refused'
+                    if got_nw['who'] != want_nw:
+                        out.append(report.Violation(
+                            {'impl': 'asgi', 'kind': 'websocket_scope_misrouted', 'trigger': 'no_wrapped_app'},
+                            '[asgi mapping=%s endpoint=%r wrapped=False] a WebSocket scope for %r got %r, want %s (only websocket events are legal on a websocket scope)'
+                            % (mname, ep, path, got_nw, want_nw),
+                            {'harness': 'route_ws', 'app': 'asgi', 'path': path, 'mapping': mname, 'endpoint': ep, 'wrapped': False},
+                            weight=(0, len(path))))
                     if got_ws['who'] != want_ws:
                         out.append(report.Violation(
                             {'impl': 'asgi', 'kind': 'websocket_scope_misrouted', 'trigger': _trigger(path)},
@@ -685,8 +697,8 @@ def replay(ctx, payload):
         mapping = mappings(base)[r['mapping']]
         if r['harness'] == 'route_ws':
             ref = run_asgi(r['path'], mapping, r['endpoint'], True)
-            got = run_asgi_ws(r['path'], mapping, r['endpoint'])
-            want = 'engine' if ref['who'] == 'engine' else 'wrapped'
+            got = run_asgi_ws(r['path'], mapping, r['endpoint'], wrapped=r.get('wrapped', True))
+            want = 'engine' if ref['who'] == 'engine' else ('wrapped' if r.get('wrapped', True) else 'refused')
             print('websocket scope went to', got, 'want', want)
             return 1 if got['who'] != want else 0
         fn = run_wsgi if r['app'] == 'wsgi' else run_asgi
